@@ -44,19 +44,23 @@ Apply(op) ==
       [] op.a = "drop_h" -> DropHeld
       [] op.a = "ins_big" -> IF S.active THEN InsertBig(op.k) ELSE Skip(op)
       [] op.a = "rem" -> IF S.active THEN Remove(op.k) ELSE Skip(op)
-      [] op.a = "get" -> IF S.active THEN Get(op.k) ELSE Skip(op)
-      [] op.a = "sload" -> IF S.active THEN SLoad(op.k) ELSE Skip(op)
-      [] op.a = "fetch" -> IF S.active THEN Fetch(op.k) ELSE Skip(op)
+      [] op.a = "get" -> IF S.active /\ S.pget.k = 0 THEN Get(op.k) ELSE Skip(op)
+      [] op.a = "get_start" -> IF S.active /\ S.pget.k = 0 /\ ~S.gate /\ ~S.hold /\ ~InMem(S, op.k) /\ S.keeper[op.k] = 0
+                                  /\ S.index[Hash[op.k]].kind = "addr" /\ S.index[Hash[op.k]].k = op.k
+                               THEN GetStart(op.k) ELSE Skip(op)
+      [] op.a = "get_finish" -> IF S.active /\ S.pget.k # 0 THEN GetFinish ELSE Skip(op)
+      [] op.a = "sload" -> IF S.active /\ S.pget.k = 0 THEN SLoad(op.k) ELSE Skip(op)
+      [] op.a = "fetch" -> IF S.active /\ S.pget.k = 0 THEN Fetch(op.k) ELSE Skip(op)
       [] op.a = "probation" -> IF S.active /\ ~S.prob THEN MarkProbation ELSE Skip(op)
-      [] op.a = "clear" -> IF S.active /\ ~S.hold /\ ~S.gate THEN Clear ELSE Skip(op)
+      [] op.a = "clear" -> IF S.active /\ ~S.hold /\ ~S.gate /\ S.pget.k = 0 THEN Clear ELSE Skip(op)
       [] op.a = "evict_all" -> IF S.active THEN EvictAll ELSE Skip(op)
       [] op.a = "evict_all_nt" -> IF S.active THEN EvictAllNoTurn ELSE Skip(op)
       [] op.a = "hold" -> IF S.active /\ ~S.hold THEN Hold ELSE Skip(op)
       [] op.a = "unhold" -> IF S.hold THEN Unhold ELSE Skip(op)
-      [] op.a = "gate_on" -> IF S.active /\ ~S.gate THEN GateOn ELSE Skip(op)
+      [] op.a = "gate_on" -> IF S.active /\ ~S.gate /\ S.pget.k = 0 THEN GateOn ELSE Skip(op)
       [] op.a = "gate_off" -> IF S.gate THEN GateOff ELSE Skip(op)
       [] op.a = "gate_step" -> IF S.gate /\ S.inio /\ S.hold THEN GateStep ELSE Skip(op)
-      [] op.a = "close" -> IF S.active /\ ~S.hold /\ ~S.gate /\ S.heldph = <<>> THEN Close
+      [] op.a = "close" -> IF S.active /\ ~S.hold /\ ~S.gate /\ S.heldph = <<>> /\ S.pget.k = 0 THEN Close
                            ELSE IF S.active /\ S.gate /\ ~S.hold /\ S.inio /\ S.heldph = <<>> THEN CloseGated
                            ELSE Skip(op)
       [] op.a = "reopen" -> IF ~S.active THEN Reopen ELSE Skip(op)
@@ -66,16 +70,27 @@ SameBag(s, t) == Len(s) = Len(t) /\ \A i \in DOMAIN s : Count(s, s[i]) = Count(t
 
 \* T = the specification's next state, exp = its expected result
 Bad(op, o, T, exp) ==
-    LET isLookup == op.a \in {"get", "fetch", "sload"}
+    LET isLookup == op.a \in {"get", "fetch", "sload"} \/ (op.a = "get_finish" /\ S.pget.k # 0)
         r == o.res
-        k == IF isLookup THEN op.k ELSE 0
+        k == IF op.a = "get_finish" THEN S.pget.k ELSE IF isLookup THEN op.k ELSE 0
         known(v) == v \in 1 .. Len(T.vkey)
         resTags ==
             IF ~isLookup THEN {}
+            \* a lookup that overlapped other operations on its key may be answered with any version that was current
+            \* at some moment of the window (the indexed one at its start, any one inserted since) or with a miss
+            ELSE IF op.a = "get_finish"
+                 THEN IF r = exp THEN {}
+                      ELSE IF r < 0 THEN {<<"tool", "lookup_failed_or_incomplete">>}
+                      ELSE IF r = 0 \/ r \in S.pget.vs THEN {<<"drift", "overlapping_lookup">>}
+                      ELSE IF r >= 1000000 \/ (known(r) /\ T.vkey[r] # k) THEN {<<"C17", "foreign_value">>}
+                      ELSE {<<"C01", "stale_or_removed_value">>}
             \* finding F12 (open): judged on the truth of the key, also when the specification - which models
             \* what the code does - expects exactly this answer
             ELSE IF k \in T.late /\ r # 0 /\ r < 1000000 /\ r # T.truth[k]
                  THEN {<<"C01", "older_version_republished_by_late_drop_of_diskonly_handle">>}
+            \* finding F16 (open): a value removed while the disk read of a lookup was in flight is back in memory
+            ELSE IF k \in T.lateread /\ r # 0 /\ r < 1000000 /\ r # T.truth[k]
+                 THEN {<<"C01", "removed_value_installed_by_late_disk_read">>}
             \* finding F13 (open): a cleared entry is back after clear + further writes + restart
             ELSE IF k \in T.revived /\ r # 0 /\ r < 1000000 /\ r # T.truth[k]
                  THEN {<<"C01", "cleared_entry_back_after_restart">>}
